@@ -17,11 +17,14 @@
    That end-to-end behaviour is exercised by netsim scenarios
    (harness/cmd/c04net: a full ChainService against one honest and 0-3
    misbehaving scripted nodes) and judged by the monitor C04net/Replay.v;
-   the finding tagged 22 (F22: a client that finished syncing from a peer on
-   a lighter valid fork asks an already connected honest peer only after it
-   announces a block), the root cause tagged 23 (F30 of C03, repaired: a
-   filter lie about a coinbase-only block could not be refuted) and the
-   silent-sync-peer delays live exactly in the part that is not modelled.
+   the findings of the scenarios live exactly in the part that is not
+   modelled: F22 (tag 22: a client that finished syncing from a peer on a
+   lighter valid fork asks an already connected honest peer only after it
+   announces a block), F-C04-2 (tag 24: a peer silent on getheaders that keeps
+   announcing blocks is never dropped), F-C04-3 (tag 25: a cfheaders round
+   answered by liars only commits their value, the honest peer is then
+   banned), and the repaired root cause F30 of C03 (tag 23: a filter lie
+   about a coinbase-only block could not be refuted).
    [best_block] is tied to ChainService.BestBlock by a table replayed on
    every run (C04/Replay.v). *)
 From stdpp Require Import list.
